@@ -1,6 +1,7 @@
 import SaModel.Lemmas.C17Range
 import SaModel.Lemmas.C17TouchTyped
 import SaModel.Lemmas.C17UntouchedTyped
+import SaModel.Lemmas.C17UntouchedRefl
 /-
 C17 — structurally inconsistent array views give an error, not a panic or foreign data.
 Property theorems only.  Model: SaModel/Read/Reader.lean (readers after the `fix:` commits = `Fixes.all`);
@@ -11,6 +12,10 @@ all statements are over ARBITRARY `Arr` (no well-formedness hypothesis).
   of the buffer the view designates (`bytes_in_range`, `view_in_range`, `fsb_in_range`, `dict_in_range`), and
   every successful element read is below the array's length (`isSome_ok_lt_len`): children are addressed only
   through `is_some`-guarded reads, so no element outside a child is ever returned.
+* `readAs_touch_in_range` (+ `readAny_…`, `readRecord_…`): a successful read implies the run-time predicate `touchOK`.
+* `untouched_ok` (+ `untouched_ok_any`, `untouched_ok_isSome`, `untouched_corruption_ok`, `readRecord_untouched`,
+  `readAll_untouched`): two views that agree on the footprint of a read (`Spec.touchEq`) give the same result;
+  `touchEq_refl`.
 * negations for the pinned readers with concrete witnesses (`decide`).
 -/
 namespace SaModel.Props.C17
@@ -644,14 +649,17 @@ theorem touch_needs_consecutive_ids :
     let a : Arr := .union [0] (some [0]) (.cons 5 ⟨"a", false, []⟩ (.null 1) (.cons 0 ⟨"b", false, []⟩ (.null 0) .nil))
     (readAny Fixes.all a 0).isOk = true ∧ touchOK .any a 0 = false ∧ (new Fixes.all a).isErr = true := by decide
 
-/-! ### `untouched_ok`: what is not reachable from row `i` does not influence the read at `i`
+/-! ### `untouched_ok`: what a read does not look at does not influence it
 
-`reachEq a a' i` (SaModel/Lemmas/C17Untouched.lean) is a structural relation on the DATA of two views, independent
-of the reader model and of the target: same constructors and type tags; at row `i` the same answer to "below the
-declared length", the same validity bit, value, pair of offsets, view descriptor, type id and union offset; equal
-byte buffers; and, recursively, agreement of the children at the slots row `i` refers to (struct fields at `i`, list /
-map elements `offsets[i] … offsets[i+1]-1`, fixed-size elements `i*n … (i+1)*n-1`, the dictionary value under the
-key of row `i`, the union child at position `type id` at slot `offsets[i]`).  Everything else may differ. -/
+`Spec.touchEq t a a' i` (SaModel/Spec/TouchEq.lean) is a relation on the DATA of two views, independent of the reader
+model: `a'` agrees with `a` on the footprint of a read of target `t` at slot `i` — along the traversal of `touchOK`:
+the row tests, the validity BIT of each visited slot (for struct / list / map columns only under `Option` / `any`
+targets), the value, the offset pair and the byte SLICE it designates, the view descriptor and the bytes it
+designates, type id / union offset, the dictionary key and the value slot it designates; struct fields as far as the
+target reads them (by name — the others the way serde skips them —, by position, all of them for map / any), list
+elements with the element target, nothing below a slot that `Option` / `any` find null.  Everything else may differ:
+other rows, other validity bits, bytes outside the designated slices, fields a tuple target does not reach, child
+slots row `i` does not refer to, the values of null slots. -/
 
 mutual
 theorem agreeP_all : ∀ (t : Target), AgreeP t
@@ -692,32 +700,101 @@ theorem kagree_all : ∀ (k : VKind), KAgree k
   | .struct tfs => kagree_struct (agreeP_fields tfs)
 end
 
-/-- `untouched_ok`: two views that agree on everything reachable from row `i` give the same result (value, error
-or — excluded by `readAs_no_panic` — panic) for every typed read at `i`; in particular a corruption that is not
-reachable from `i` leaves the read at `i` what it was on the uncorrupted view.
-PARTIAL with respect to DESIGN.md's "not reachable from index i": `reachEq` is coarser than the exact footprint in
-two places — (1) the byte buffers of Utf8 / Binary / view / FixedSizeBinary columns (and the `n` of the latter) have
-to be equal as a whole, so a corrupted data byte OUTSIDE the slice row `i` designates is not covered; (2) the
-relation does not depend on the target, it covers what ANY read at `i` can reach (e.g. struct fields beyond the
-arity of a tuple target, which that target never looks at, still have to agree at `i`).  Everything else (lengths,
-validity bits, values, offsets, keys, type ids, union offsets, children slots not referenced from `i`) is exact. -/
-theorem untouched_ok_partial {t : Target} {a a' : Arr} {i : Nat} (h : reachEq a a' i = true) :
+/-- `untouched_ok`: two ARBITRARY views that agree on what a read of target `t` at slot `i` looks at give the same
+result (value, error or — excluded by `readAs_no_panic` — panic) for that read, for EVERY target.  `touchEq` is the
+exact footprint of a read that succeeds; for a read that fails it may ask for more than was looked at (the traversal
+is not cut at the first failing element; a target the column's reader has no method for still compares the leaf
+slot / the offset pair; an element range that leaves its child asks for equal children) — see Spec/TouchEq.lean. -/
+theorem untouched_ok {t : Target} {a a' : Arr} {i : Nat} (h : touchEq t a a' i = true) :
     readAs Fixes.all t a i = readAs Fixes.all t a' i :=
   agreeP_all t a a' i h
 
-/-- the same for `deserialize_any` and `is_some` (same two coarsenings) -/
-theorem untouched_ok_any_partial {a a' : Arr} {i : Nat} (h : reachEq a a' i = true) :
-    readAny Fixes.all a i = readAny Fixes.all a' i ∧ isSome Fixes.all a i = isSome Fixes.all a' i :=
-  ⟨readAny_agree h, isSome_agree h⟩
+/-- the same for `deserialize_any` and `is_some` -/
+theorem untouched_ok_any {a a' : Arr} {i : Nat} (h : touchEq .any a a' i = true) :
+    readAny Fixes.all a i = readAny Fixes.all a' i ∧ isSome Fixes.all a i = isSome Fixes.all a' i := by
+  rw [touchEq_any] at h
+  exact ⟨readAny_agree (p := .any) rfl h, isSome_agree h⟩
 
-/-- non-vacuity: a list column whose LAST offset, a value and a validity bit outside row 0 are corrupted (the
-corrupted row 1 is an error) still reads row 0 as before; the relation holds and is not trivial -/
+/-- `is_some` under any `Option` target -/
+theorem untouched_ok_isSome {t : Target} {a a' : Arr} {i : Nat} (h : touchEq (.option t) a a' i = true) :
+    isSome Fixes.all a i = isSome Fixes.all a' i :=
+  (touchEq_option_elim h).1
+
+/-- the corollary the `corrupt` suite relies on: a corruption that differs from the base view only outside the
+footprint of the read is not noticed — the read of the corrupted view IS the read of the uncorrupted one ("where the
+inconsistency is never touched, the correct values") -/
+theorem untouched_corruption_ok {t : Target} {base corrupted : Arr} {i : Nat} {d : DVal}
+    (hbase : readAs Fixes.all t base i = .ok d) (h : touchEq t base corrupted i = true) :
+    readAs Fixes.all t corrupted i = .ok d := by
+  rw [← untouched_ok h]; exact hbase
+
+/-- at the record level, exactly the expression the suite evaluates: `touchEq r.ty (record fm base) (record fm view) r.idx` -/
+theorem readRecord_untouched {t : Target} {fm fm' : FieldMeta} {base col : Arr} {idx : Nat}
+    (h : touchEq t (record fm base) (record fm' col) idx = true) :
+    readRecord Fixes.all t fm base idx = readRecord Fixes.all t fm' col idx := by
+  have hr := untouched_ok h
+  unfold touchEq record at h
+  obtain ⟨_, _, _, he, hl, _⟩ := touchEqW_struct h
+  cases he
+  unfold readRecord
+  simp only [ge_of_lt_eq hl, hr]
+
+/-- the bulk read of the suite (`Vec<T>::deserialize`: rows 0 … n-1 in order, stopping at the first error) -/
+theorem readAll_untouched {t : Target} {a a' : Arr} {n : Nat} (h : ∀ i, i < n → touchEq t a a' i = true) :
+    readRange (fun i => readAs Fixes.all t a i) 0 n = readRange (fun i => readAs Fixes.all t a' i) 0 n :=
+  readRange_congr n 0 (fun k hk => by simpa using untouched_ok (h k hk))
+
+/-- the relation never asks for more than equality of the views: every view agrees with itself, for every target and
+slot (also out of range, also where the view is inconsistent) -/
+theorem touchEq_refl (t : Target) (a : Arr) (i : Nat) : touchEq t a a i = true := touchEqW_refl a _ _ i
+
+/-- non-vacuity 1 (byte slices, not whole buffers): a list of strings; the corrupted view has another LAST offset of the
+list, another validity bit, another offset and other DATA BYTES of the string column — all outside what row 0 designates.
+Row 0 agrees (and reads as before), row 1 does not (and is an error) -/
 example :
-    let a : Arr := .list false none [0, 2, 3] ⟨"element", false, []⟩ (.prim .int32 (some ⟨[7], 0⟩) [1, 2, 3])
-    let a' : Arr := .list false none [0, 2, 99] ⟨"element", false, []⟩ (.prim .int32 (some ⟨[3], 0⟩) [1, 2, 77])
-    reachEq a a' 0 = true ∧ reachEq a a' 1 = false ∧
-    readAs Fixes.all (.seq (.int .i32)) a' 0 = .ok (.seq (.cons (.int .i32 1) (.cons (.int .i32 2) .nil))) ∧
-    (readAs Fixes.all (.seq (.int .i32)) a' 1).isErr = true := by decide
+    let a : Arr := .list false none [0, 2, 3] ⟨"element", false, []⟩ (.bytes .utf8 (some ⟨[7], 0⟩) [0, 1, 2, 3] [65, 66, 67])
+    let a' : Arr := .list false none [0, 2, 99] ⟨"element", false, []⟩ (.bytes .utf8 (some ⟨[3], 0⟩) [0, 1, 2, 9] [65, 66, 255, 1])
+    touchEq (.seq .string) a a' 0 = true ∧ touchEq (.seq .string) a a' 1 = false ∧
+    readAs Fixes.all (.seq .string) a' 0 = .ok (.seq (.cons (.str .owned [65]) (.cons (.str .owned [66]) .nil))) ∧
+    (readAs Fixes.all (.seq .string) a' 1).isErr = true := by decide
+
+/-- non-vacuity 2 (target dependence): a one-element tuple target does not look at the second field (other name, other
+type, other length) nor at the struct's validity bit; an `Option` target and `deserialize_any` do look at the bit, and
+stop there when it says null (row 1), whatever the fields hold -/
+example :
+    let a : Arr := .struct 2 (some ⟨[1], 0⟩)
+      (.cons ⟨"x", true, []⟩ (.prim .int32 none [7, 8]) (.cons ⟨"y", true, []⟩ (.prim .int32 none [1, 2]) .nil))
+    let a' : Arr := .struct 2 (some ⟨[1], 0⟩)
+      (.cons ⟨"x", true, []⟩ (.prim .int32 none [7, 9]) (.cons ⟨"z", true, []⟩ (.prim .int64 none [5]) .nil))
+    let t : Target := .tuple (.cons (.int .i32) .nil)
+    touchEq t a a' 0 = true ∧ touchEq t a a' 1 = false ∧ touchEq (.option t) a a' 1 = true ∧
+    touchEq .any a a' 0 = false ∧ touchEq .any a a' 1 = true ∧
+    readAs Fixes.all t a' 0 = .ok (.seq (.cons (.int .i32 7) .nil)) ∧ readAs Fixes.all (.option t) a' 1 = .ok .none := by
+  decide
+
+/-- non-vacuity 3 (`readRecord_untouched`, `untouched_corruption_ok`): a dictionary column whose key of row 1 and whose
+unreferenced value are corrupted; the record read of row 0 into a one-element tuple with a borrowed string is what it was -/
+example :
+    let fm : FieldMeta := ⟨"s", false, []⟩
+    let base : Arr := .dictionary (.prim .int8 none [0, 1]) (.bytes .utf8 none [0, 1, 2] [65, 66])
+    let view : Arr := .dictionary (.prim .int8 none [0, 7]) (.bytes .utf8 none [0, 1, 9] [65, 0])
+    let t : Target := .tuple (.cons .str .nil)
+    touchEq t (record fm base) (record fm view) 0 = true ∧ touchEq t (record fm base) (record fm view) 1 = false ∧
+    readRecord Fixes.all t fm view 0 = some (.ok (.seq (.cons (.str .borrowed [65]) .nil))) := by
+  decide
+
+/-- the converse does not hold, and is not claimed: equal results with a differing footprint happen by coincidence — a
+corrupted offset pair that designates equal bytes (the run-time tag `untouched-coincidence`); and the relation is not
+idle: a byte INSIDE the designated slice, the validity bit of the row, a field the target names make it false -/
+example :
+    let a : Arr := .bytes .utf8 none [0, 1, 2] [65, 65]
+    let a' : Arr := .bytes .utf8 none [1, 2, 2] [65, 65]
+    let b : Arr := .bytes .utf8 none [0, 1, 2] [66, 65]
+    let c : Arr := .bytes .utf8 (some ⟨[2], 0⟩) [0, 1, 2] [65, 65]
+    touchEq .string a a' 0 = false ∧ readAs Fixes.all .string a 0 = readAs Fixes.all .string a' 0 ∧
+    touchEq .string a b 0 = false ∧ readAs Fixes.all .string a 0 ≠ readAs Fixes.all .string b 0 ∧ touchEq .string a b 1 = true ∧
+    touchEq .string a c 0 = false ∧ readAs Fixes.all .string a 0 ≠ readAs Fixes.all .string c 0 ∧ touchEq .string a c 1 = true := by
+  decide
 
 /-! ### the pinned readers do panic / do return foreign elements: concrete witnesses -/
 
